@@ -9,6 +9,10 @@ CONSTANTS Addrs <- McAddrs
  MaxRestart = 0
  MaxReads = 2
  LeafOnly = TRUE
+ MaxSlots = 1
+ CanonSlots = TRUE
+ Kinds = {"extra"}
+ IdentByHash = TRUE
 INVARIANTS TypeOK ViewIsNearestWrite ForksIsolated PersistEqualsStableView
-PROPERTIES PruneExact WriteLocal ReadPure
+PROPERTIES PruneExact WriteLocal ReadPure AttrInert
 CHECK_DEADLOCK FALSE
